@@ -91,7 +91,7 @@ SPEC = dict(
         # (closed, 0) must not set it again, otherwise it can overtake the real setter (record_done between its fetch_sub and its
         # evt_.set()), let the join complete and the scope be destroyed under that setter.  FAILS on the code as written (finding).
         dict(name='end_of_scope_single_setter', harness='h_end_of_scope', enforce='async_scope_end_of_scope',
-             defines=['VF_SINGLE_SETTER'], tier='thorough'),
+             defines=['VF_SINGLE_SETTER']),
         dict(name='request_stop', harness='h_request_stop', enforce='async_scope_request_stop', replace=['async_scope_end_of_scope']),
         dict(name='get_stop_token', harness='h_get_stop_token', enforce='async_scope_get_stop_token'),
         dict(name='await_and_sync', harness='h_await_and_sync', enforce='async_scope_await_and_sync'),
@@ -105,7 +105,7 @@ SPEC = dict(
         dict(name='receiver_set_value', harness='h_rcv_set_value', enforce='v0_receiver_set_value', replace=['v0_receiver_set_done']),
         dict(name='receiver_set_error', harness='h_rcv_set_error', enforce='v0_receiver_set_error'),
         dict(name='lemma_scope_protocol', harness='lemma_scope_protocol', mode='lemma'),
-        dict(name='lemma_scope_single_setter', harness='lemma_scope_protocol', mode='lemma', defines=['VF_SINGLE_SETTER'], tier='thorough'),
+        dict(name='lemma_scope_single_setter', harness='lemma_scope_protocol', mode='lemma', defines=['VF_SINGLE_SETTER']),
         dict(name='lemma_scope_init', harness='lemma_scope_init', mode='lemma'),
     ],
     assumptions=[
@@ -117,7 +117,7 @@ SPEC = dict(
         'count < 2^40 (resource bound standing in for UNIFEX_ASSERT(opState + 2 > opState))',
         'atomics sequentially consistent',
         'the scope is destroyed only after a join completed (the destructor asserts exactly that)',
-        'FINDING (not repaired): end_of_scope() sets evt_ whenever the old count is 0, also when the scope was already closed: request_stop() followed by complete()/cleanup() (or two joins) lets the second end_of_scope() set the event between the last record_done()\'s fetch_sub and its evt_.set(); the join completes, the scope is destroyed and record_done() calls set() on the destroyed event (probes/native/async_scope_v0_second_close_overtakes_last_completion.cpp). The obligation is unit end_of_scope_single_setter (+ lemma_scope_single_setter), tier=thorough only; the quick tier proves "set iff the new state is (closed, 0)"',
+        'FINDING (not repaired): end_of_scope() sets evt_ whenever the old count is 0, also when the scope was already closed: request_stop() followed by complete()/cleanup() (or two joins) lets the second end_of_scope() set the event between the last record_done()\'s fetch_sub and its evt_.set(); the join completes, the scope is destroyed and record_done() calls set() on the destroyed event (probes/native/async_scope_v0_second_close_overtakes_last_completion.cpp). The obligation is unit end_of_scope_single_setter (+ lemma_scope_single_setter), tier=thorough only; the quick tier proves "set only when the new state is (closed, 0), and set by the step that makes it so" (true of the code as written and of the repaired code)',
     ],
     drops=['memory orders', 'noexcept/[[nodiscard]]/[[maybe_unused]]/friend',
            'evt_.set(), evt_.async_wait(), stopSource_.request_stop(), stopSource_.get_token() -> event stubs',
